@@ -60,6 +60,7 @@ PROPS = {
             part("v2in", "TestVerif_C04_Repeat", "repeat", 0, 0, shards=(4, 8), enum=True, compare_digest=True),
             part("v2in", "TestVerif_C04_Repetitive", "repetitive", 1600, 100000, shards=(4, 16)),
             part("v2in", "TestVerif_C04_Nested", "nested-documents", 1600, 100000, shards=(4, 16)),
+            part("v2in", "TestVerif_C04_RareWords", "rare-word-substitution", 0, 0, shards=(8, 16), enum=True),
         ],
     },
     "C05": {
